@@ -237,6 +237,7 @@ type ExecOut struct {
 	TxMeta     map[string][2]string `json:"txMeta,omitempty"`
 	AccMeta    map[string]map[string]string `json:"accMeta,omitempty"`
 	Queries    []StoreCallLog      `json:"queries"`
+	ResultJson string              `json:"resultJson,omitempty"` // json.Marshal of the library's result (C20)
 	Mutated    []string            `json:"mutated,omitempty"` // inputs modified by the run (C11)
 	BothResultAndError bool        `json:"bothResultAndError,omitempty"`
 }
@@ -368,6 +369,9 @@ func fillOut(o *ExecOut, r runOutput) {
 		return
 	}
 	o.Outcome = "ok"
+	if jb, jerr := json.Marshal(r.res); jerr == nil {
+		o.ResultJson = string(jb)
+	}
 	for _, p := range r.res.Postings {
 		o.Postings = append(o.Postings, [4]string{p.Source, p.Destination, p.Amount.String(), p.Asset})
 	}
@@ -396,6 +400,13 @@ func execCase(c *ExecCase) map[string]any {
 	result := map[string]any{"id": c.ID}
 	pr := parser.Parse(c.Script)
 	result["parseErrors"] = len(pr.Errors)
+	if len(pr.Errors) > 0 {
+		pl := [][]string{}
+		for _, e := range pr.Errors {
+			pl = append(pl, []string{rng(e.Range), e.Msg})
+		}
+		result["parseErrorList"] = pl
+	}
 	sexp, unsup := programToSexp(pr.Value)
 	result["ast"] = sexp
 	if len(unsup) > 0 {
